@@ -19,4 +19,4 @@ one() {
   echo "$id $(awk '{print $1}' "$out" | sort -u | tr '\n' ' ')"
 }
 export -f one
-ls -d seeded/C*-*m* | xargs -P 7 -I{} bash -c 'one {}' | sort
+ls -d seeded/C*-*m* | xargs -P ${PAR:-7} -I{} bash -c 'one {}' | sort
